@@ -361,6 +361,7 @@ def run(ctx, P, which):
                   "after a change the new run's start is `%s`, expected pos - wsize + 1" % show(ns), line_of(sp.exit[1]))
     if nW < 2:
         ctx.fail(P + ".W", "%s:change_sites:floor" % name, "fewer than 2 minimiser-change emission paths found", line_of(loop))
+    buffer_rules(ctx, P, which, paths)
     return paths
 
 
@@ -379,3 +380,117 @@ def site_name(sp):
     if newact[0] == "bin" and newact[1] == "min":
         return "arrival_change"
     return "end_of_sequence"
+
+
+# ---------------------------------------------------------------- X: window-buffer slots
+
+def scan_loop_ok(fv, loop, acc_is_field):
+    """`for j in 0..buff.len() { if *buff.get(j).unwrap() </<= acc { buff_pos = j; acc = *buff.get(j).unwrap(); } }`
+    Returns (ok, why)."""
+    it = fv.term(loop["iter"])
+    if not (it[0] == "struct" and it[1].endswith("ops::Range")):
+        return False, "scan does not iterate a range"
+    d = dict(it[2])
+    if d.get("start") != L(0) or not is_len_of(d.get("end", ("none",)), BUFF):
+        return False, "scan range is %s, expected 0..buff.len() (every buffered m-mer)" % show(it)
+    paths = sym_paths(fv, loop["body"])
+    view = paths[0].view if paths else fv
+    j = ("item", view.term(loop["iter"]))
+    elem = None
+    hit = [sp for sp in paths if sp.state]
+    miss = [sp for sp in paths if not sp.state]
+    if len(hit) != 1 or len(miss) != 1:
+        return False, "scan body has %d updating / %d non-updating paths, expected 1 / 1" % (len(hit), len(miss))
+    sp = hit[0]
+    cond = sp.conds[-1] if sp.conds else None
+    if cond is None or cond[0][0] != "bin" or cond[0][1] not in ("<", "<=") or not cond[1]:
+        return False, "scan comparison is not `element < running minimum`"
+    a, b = cond[0][2], cond[0][3]
+    ok_elem = contains(a, lambda s: s[0] == "call" and s[1].endswith("::get") and s[2] == BUFF and s[3] == j) or \
+        (a[0] == "index" and a[1] == BUFF and a[2] == j)
+    if not ok_elem:
+        return False, "scan compares `%s`, expected buff[j]" % show(a)
+    st = sp.state
+    accs = [k for k, v in st.items() if v == a and k != SF("buff_pos")]
+    if st.get(SF("buff_pos")) != j:
+        return False, "scan does not record the position of the minimum (buff_pos = j)"
+    if len(accs) != 1 or accs[0] != b:
+        return False, "scan does not update the running minimum it compares against (compares with %s, updates %s)" % (
+            show(b), [show(x) for x in accs])
+    return True, ""
+
+
+def buffer_rules(ctx, P, which, paths=None):
+    g = GENS[which]
+    name = g["name"]
+    fv = ctx.need(P + ".X", g["next"])
+    if fv is None:
+        return
+    loop = next((n for n in fv.nodes if n.get("k") == "loop"), None)
+    if paths is None:
+        paths = sym_paths(fv, loop["body"])
+    inner = [n for n in walk(loop["body"]) if n.get("k") == "for"]
+    ctx.check(P + ".X", "%s:scan_loops" % name, len(inner) == 2, "two buffer scans (rescan, first fill)",
+              "expected the rescan and the first-fill scan, found %d inner loops" % len(inner), line_of(loop))
+    for i, l in enumerate(inner):
+        ok, why = scan_loop_ok(fv, l, False)
+        ctx.check(P + ".X", "%s:scan@%d" % (name, i + 1), ok, "scan %d visits every buffered m-mer, tracks value and position" % (i + 1),
+                  "buffer scan %d: %s" % (i + 1, why), line_of(l))
+    # rescan accumulator starts at the sentinel
+    for l in inner:
+        # accumulator = the variable compared in the body
+        pass
+    clean = [sp for sp in paths if classify(sp) == "clean"]
+    bad_push = bad_pos = None
+    n_full = n_fill = 0
+    for sp in clean:
+        effs = [e for e in sp.effects if e[1] == BUFF or (e[1][0] == "ver" and e[1][1] == BUFF)]
+        names = [e[0] for e in effs]
+        full = None
+        for t, pol, _ in sp.conds:
+            ft = full_test(t)
+            if ft is not None and buff_of(ft[0])[0] == "initial" and len(conjuncts(t)) == 1:
+                full = pol
+        mf, mr = sp.state.get(SF("m_val_f")), sp.state.get(SF("m_val_r"))
+        if full is None:
+            if names and bad_push is None:
+                bad_push = ("the buffer is modified before m clean bases are available", sp)
+            continue
+        val = mk_bin("min", mf, mr) if mf is not None and mr is not None else None
+        if full:
+            n_full += 1
+            if names != ["pop_front", "push_back"] or effs[1][2] != val:
+                bad_push = ("with a full buffer the iteration must pop_front then push_back(min(f, r)); found %s"
+                            % [(e[0], show(e[2]) if len(e) > 2 else "") for e in effs], sp)
+        else:
+            n_fill += 1
+            if names != ["push_back"] or effs[0][2] != val:
+                bad_push = ("while filling, the iteration must push_back(min(f, r)) once; found %s"
+                            % [(e[0], show(e[2]) if len(e) > 2 else "") for e in effs], sp)
+        # position bookkeeping of the tracked minimum
+        if full:
+            newact = sp.state.get(MACT, MACT)
+            bp = sp.state.get(SF("buff_pos"), SF("buff_pos"))
+            took_rescan = any(t == mk_bin("==", SF("buff_pos"), L(0)) and pol for t, pol, _ in sp.conds)
+            if took_rescan:
+                if bp[0] != "loopval":
+                    bad_pos = ("after the tracked minimum left the buffer, buff_pos is `%s`, expected the rescanned position" % show(bp), sp)
+            elif newact[0] == "bin" and newact[1] == "min":
+                want = {("len(buff)",): 1, (): -1}
+                pp = poly(bp, None, lambda t: "len(buff)" if (t[0] == "call" and t[1].endswith("::len")) else show(t))
+                if pp != want:
+                    bad_pos = ("after a smaller m-mer arrives, buff_pos is `%s`, expected buff.len() - 1 (the new element)" % show(bp), sp)
+            elif bp[0] != "loopval":     # (a later scan on the same path re-derives the position)
+                if poly(bp) != poly(mk_bin("-", SF("buff_pos"), L(1))):
+                    bad_pos = ("when the run continues, buff_pos must move left by one (pop_front shifts the buffer); found `%s`" % show(bp), sp)
+    ctx.check(P + ".X", "%s:buffer_updates" % name, bad_push is None and n_full >= 3 and n_fill >= 1,
+              "pop_front+push_back(min(f,r)) when full (%d paths), push_back when filling (%d paths)" % (n_full, n_fill),
+              bad_push[0] if bad_push else "buffer update paths not found", line_of(loop))
+    ctx.check(P + ".X", "%s:min_position" % name, bad_pos is None, "buff_pos follows the tracked minimum on every path",
+              bad_pos[0] if bad_pos else "", line_of(loop))
+    # the rescan accumulator starts at u64::MAX (so the first element always wins)
+    rescan_init = [n for n in walk(loop["body"]) if n.get("k") == "let" and "Mut)" in n["pat"].get("mode", "")
+                   and n["pat"].get("ty") == "u64" and n.get("init") is not None]
+    okI = len(rescan_init) == 1 and is_max(fv.term(rescan_init[0]["init"]))
+    ctx.check(P + ".X", "%s:rescan_init" % name, okI, "rescan starts from u64::MAX",
+              "the rescan accumulator does not start at u64::MAX", line_of(rescan_init[0]) if rescan_init else line_of(loop))
